@@ -45,7 +45,8 @@ impl BytesSerializable for PurgeTopic {
     }
 
     fn from_bytes(bytes: Bytes) -> Result<PurgeTopic, IggyError> {
-        if bytes.len() < 10 {
+        // Two identifiers, each at least 3 bytes (kind, length, 1-byte name).
+        if bytes.len() < 6 {
             return Err(IggyError::InvalidCommand);
         }
 
